@@ -18,7 +18,9 @@ no error is returned, the mechanism in use is the one selected from both lists, 
 made said `more` except the last one which said `done` (so: run to completion, without error,
 never stepped again after completion or error), and the elements read from the receiver are
 decodable `<challenge/>`s followed by exactly one decodable `<success/>`, which is the last
-element read. -/
+element read; and the challenges handed to the mechanism are exactly the decoded payloads
+of those `<challenge/>`s, in order (followed by the payload of `<success/>` when the mechanism
+was still waiting for data). -/
 theorem C03_client_sound (cm : List (String × Mech)) (adv : List String) (peer : List CEv)
     (h : (clientNeg cm adv peer).authn = true) :
     (clientNeg cm adv peer).err = .none ∧
@@ -27,7 +29,9 @@ theorem C03_client_sound (cm : List (String × Mech)) (adv : List String) (peer 
       RunsToDone mech [] (clientNeg cm adv peer).hist ∧
       ∃ pre p c rest, peer = pre ++ .success p :: rest ∧
         (clientNeg cm adv peer).consumed = pre.length + 1 ∧
-        p.decodeClient = some c ∧ ∀ e ∈ pre, GoodChallenge e := by
+        p.decodeClient = some c ∧ (∀ e ∈ pre, GoodChallenge e) ∧
+        ((clientNeg cm adv peer).hist = chalBytes pre ∨
+         (clientNeg cm adv peer).hist = chalBytes pre ++ [c]) := by
   unfold clientNeg at h ⊢
   cases hs : select cm adv with
   | none => simp [hs, fail] at h
@@ -42,14 +46,15 @@ theorem C03_client_sound (cm : List (String × Mech)) (adv : List String) (peer 
       | otherErr => simp [hk, fail] at h
       | more =>
         simp only [hk] at h ⊢
-        obtain ⟨e1, ⟨ext, e2, e3⟩, e4⟩ := clientLoop_sound mech peer [] h hk
-        refine ⟨e1, name, mech, rfl, hn, rfl, ?_, e4⟩
+        obtain ⟨e1, ext, pre, p, c, rest, e2, e3, e4, e5, e6, e7, e8⟩ := clientLoop_sound mech peer [] h hk
         simp only [List.nil_append] at e2
-        simpa [e2] using e3
+        refine ⟨e1, name, mech, rfl, hn, rfl, by simpa [e2] using e3, pre, p, c, rest, e4, e5, e6, e7, ?_⟩
+        simpa [e2] using e8
       | done =>
         simp only [hk] at h ⊢
         obtain ⟨e1, e2, _, p, c, rest, e4, e4', e5⟩ := readFinal_sound [] peer h
-        refine ⟨e1, name, mech, rfl, hn, rfl, ?_, [], p, c, rest, by simpa using e4, by simpa using e4', e5, by simp⟩
+        refine ⟨e1, name, mech, rfl, hn, rfl, ?_, [], p, c, rest, by simpa using e4, by simpa using e4', e5,
+          by simp, Or.inl (by simp [e2, chalBytes])⟩
         simp only [e2]
         exact hk
 
@@ -88,7 +93,7 @@ theorem C03_client_neg (cm : List (String × Mech)) (adv : List String) (peer : 
     (∀ i p, peer[i]? = some (.success p) → i < (clientNeg cm adv peer).consumed →
       i + 1 = (clientNeg cm adv peer).consumed) ∧
     (∀ p, peer[(clientNeg cm adv peer).consumed - 1]? ≠ some (.challenge p)) := by
-  obtain ⟨_, _, _, _, _, _, _, pre, p, c, rest, e1, en, e2, e3⟩ := C03_client_sound cm adv peer h
+  obtain ⟨_, _, _, _, _, _, _, pre, p, c, rest, e1, en, e2, e3, _⟩ := C03_client_sound cm adv peer h
   rw [en]
   have htake : peer.take (pre.length + 1) = pre ++ [CEv.success p] := by
     rw [e1]; simp [List.take_append, List.take_of_length_le]
